@@ -1,4 +1,5 @@
 import HypatiaModel.TextScore
+import HypatiaModel.TextSort
 import HypatiaModel.Spec.ScoreSpec
 import Driver.Sess
 /-!
@@ -62,6 +63,14 @@ where
       pure (t :: ts, r2)
 
 def spec (st : St) (f : Int → Option Float) : String := showMap (ScoreSpec.asMap st.t f)
+
+/-- `k v k v …` (values as bit patterns) -/
+def pairs? : List String → Option (AMap Int Float)
+  | [] => some []
+  | k :: v :: rest => do
+    let k ← k.toInt?; let v ← float? v; let r ← pairs? rest
+    pure ((k, v) :: r)
+  | _ => none
 
 /-- `d f len d f len …` -/
 def triples? : List String → Option (List (Int × Nat × Nat))
@@ -139,6 +148,34 @@ def step (st : St) (toks : List String) : St × String :=
       | .error .queryError => (st, "err QueryError")
       | .error (.setops e) => (st, showSetErr e)
     | _ => (st, "bad-op")
+  | "applyb" :: rest =>
+    -- are all normalised scores in (0, 1] (up to rounding)?  the specification says yes
+    match tree? rest with
+    | some (t, []) =>
+      match (Score.apply st.kind st.s (lexOf st) t : Except ApplyErr (Option (AMap Int Float))) with
+      | .ok none => (st, "none ## none")
+      | .ok (some m) =>
+        let bad := m.filter (fun p => !(0 < p.2 && p.2 ≤ 1 + 1e-6))
+        (st, (if bad.isEmpty then "in-bound" else "out-of-bound") ++ " ## in-bound")
+      | .error .queryError => (st, "err QueryError")
+      | .error (.setops e) => (st, showSetErr e)
+    | _ => (st, "bad-op")
+  | "sort" :: rev :: lim :: rest =>
+    match boolTok? rev, optInt? lim, pairs? rest with
+    | some rev, some lim, some m =>
+      match TextSort.sort (.weighted m) rev lim with
+      | .ok (.same _) => (st, "same")
+      | .ok (.ids l) => (st, "[" ++ showInts l ++ "]")
+      | .error _ => (st, "err TypeError")
+    | _, _, _ => (st, "bad-op")
+  | "sortset" :: rev :: lim :: rest =>
+    match boolTok? rev, optInt? lim, intList? rest with
+    | some rev, some lim, some ids =>
+      match (TextSort.sort (.plain ids) rev lim : Except TextSort.Err (TextSort.Output Float)) with
+      | .ok (.same _) => (st, "same")
+      | .ok (.ids l) => (st, "[" ++ showInts l ++ "]")
+      | .error _ => (st, "err TypeError")
+    | _, _, _ => (st, "bad-op")
   | "okascore" :: idfv :: mean :: rest =>
     match float? idfv, float? mean, triples? rest with
     | some idfv, some mean, some tr =>
